@@ -322,7 +322,24 @@ class SymTime:
         elif isinstance(val, z3.ExprRef):
             s.sec = SReal(val)
         else:
-            raise ValueError(f"SymTime from {type(val)}")
+            # concrete input: whatever the real astropy Time accepts (with the same keyword arguments)
+            from astropy.time import Time as _RealTime
+            from fractions import Fraction as _F
+            from .core import realval as _rv
+            kw = dict(k)
+            if format is not None:
+                kw["format"] = format
+            if precision is not None:
+                kw["precision"] = precision
+            t = _RealTime(val, **kw)
+            if not t.isscalar:
+                s.isscalar = False
+                s.shape = t.shape
+                s.sec = None
+                return
+            ep = _RealTime("2021-03-04T05:06:07", format="isot", scale="utc", precision=9)
+            d = (_F(float(t.jd1)) - _F(float(ep.jd1))) + (_F(float(t.jd2)) - _F(float(ep.jd2)))
+            s.sec = SReal(_rv(d * 86400))
 
     @property
     def isot(s):
